@@ -11,6 +11,7 @@ import (
 	"github.com/cosmos/cosmos-sdk/codec"
 	sdk "github.com/cosmos/cosmos-sdk/types"
 	"github.com/cosmos/cosmos-sdk/types/query"
+	banktypes "github.com/cosmos/cosmos-sdk/x/bank/types"
 
 	"jkverif/chain"
 	"jkverif/gen"
@@ -267,3 +268,7 @@ func sortedKeys(m map[string]int64) []string {
 }
 
 func dur(d int64) time.Duration { return time.Duration(d) * time.Second }
+
+func bankSend(from, to sdk.AccAddress, amt sdk.Coins) sdk.Msg {
+	return banktypes.NewMsgSend(from, to, amt)
+}
